@@ -84,12 +84,17 @@ def envprobe(wdir):
     import filecmp, shutil
     problems = []
     gen = os.path.join(LEAN, "Prism", "Gen")
-    for n in ("1", "3", "7"):
+    for n, first in (("1", ""), ("3", "encode"), ("7", "decode"), ("5", "xyz")):
         d = os.path.join(wdir, "envdump_" + n)
         shutil.rmtree(d, ignore_errors=True)
         os.makedirs(d, exist_ok=True)
         e = dict(os.environ)
         e["GOMAXPROCS"] = n
+        if first:
+            e["PV_FIRSTUSE"] = first
+        penv = {"GOMAXPROCS": n}
+        if first:
+            penv["PV_FIRSTUSE"] = first
         rc, out, dt = sh([PV, "dump", d], env=e, timeout=600)
         diff = []
         if rc == 0:
@@ -99,9 +104,9 @@ def envprobe(wdir):
                         diff.append(f)
         shutil.rmtree(d, ignore_errors=True)
         if rc != 0 or diff:
-            problems.append({"kind": "env", "env": {"GOMAXPROCS": n},
-                             "what": ("the code's tables/constants depend on the process environment: with GOMAXPROCS=%s the dumper %s" %
-                                      (n, ("regenerates different data in " + ", ".join(diff[:6])) if rc == 0 else "fails")),
+            problems.append({"kind": "env", "env": penv,
+                             "what": ("the code's tables/constants depend on the process environment / order of first use: with %s the dumper %s" %
+                                      (" ".join("%s=%s" % kv for kv in sorted(penv.items())), ("regenerates different data in " + ", ".join(diff[:6])) if rc == 0 else "fails")),
                              "failed_modules": ["Prism.Gen." + f[:-5] + " (regenerated under GOMAXPROCS=%s: the kernel-checked theorems are about the default-environment data)" % n for f in diff[:6]],
                              "detail": out[-1500:]})
             break
@@ -367,7 +372,7 @@ def envrun(pid, tier, seed, wdir, timeout):
     return problems, directs, info
 
 
-def racerun(tier, wdir):
+def racerun(tier, wdir, pid="C11"):
     """C11 search: fresh -race processes whose goroutines meet at first use. Returns list of findings."""
     findings = []
     env = goenv()
@@ -379,7 +384,10 @@ def racerun(tier, wdir):
         info["error"] = "cannot build the -race stress program: " + out[-800:]
         return findings, info
     img = os.path.join(REPO, "test-images", "pizza-rgb8-srgb.jpg")
-    combos = ([(2, 1), (8, 4), (64, 16), (8, 3), (16, 5), (8, 6), (33, 7), (2, 3), (3, 5), (16, 7), (64, 3), (5, 6), (8, 12)] if tier == "quick"
+    if pid != "C11" and tier == "quick":
+        combos = [(8, 3), (16, 4), (33, 7), (8, 16), (4, 5), (64, 6), (2, 2)]
+    else:
+      combos = ([(2, 1), (8, 4), (64, 16), (8, 3), (16, 5), (8, 6), (33, 7), (2, 3), (3, 5), (16, 7), (64, 3), (5, 6), (8, 12)] if tier == "quick"
               else [(n, p) for n in (2, 8, 64) for p in (1, 3, 4, 5, 6, 7, 12, 16)] * 3)
     digests = set()
     for n, procs in combos:
@@ -395,18 +403,18 @@ def racerun(tier, wdir):
             info["races"] += 1
             if len(findings) < 3:
                 m = re.search(r"WARNING: DATA RACE\n(.*?)\n\n", out, flags=re.S)
-                findings.append({"key": "C11/race/" + hashlib.sha1((m.group(1) if m else out)[:400].encode()).hexdigest()[:12],
+                findings.append({"key": pid + "/race/" + hashlib.sha1((m.group(1) if m else out)[:400].encode()).hexdigest()[:12],
                                  "what": "the race detector reports a data race at first use (N=%d goroutines, GOMAXPROCS=%d)" % (n, procs),
                                  "goroutines": n, "gomaxprocs": procs, "report": out[:3000]})
         elif rc != 0:
-            findings.append({"key": "C11/crash", "what": "stress program failed (exit %d)" % rc, "report": out[-2000:]})
+            findings.append({"key": pid + "/crash", "what": "stress program failed (exit %d)" % rc, "report": out[-2000:]})
     # every call returns its sequential value: same N => same digest in every trial
     byn = {}
     for n, d in digests:
         byn.setdefault(n, set()).add(d)
     for n, ds in byn.items():
         if len(ds) > 1:
-            findings.append({"key": "C11/value/%d" % n, "what": "concurrent calls returned different values in different trials", "digests": sorted(ds)})
+            findings.append({"key": pid + "/value/%d" % n, "what": "concurrent calls returned different values in different trials", "digests": sorted(ds)})
     try:
         os.remove(exe)
     except OSError:
@@ -495,7 +503,7 @@ def run_check(pid, tier, seed):
                                  "detail": out[-3000:]})
             if ok and P.get("envprobe"):
                 problems += envprobe(wdir)
-                steps["envprobe"] = "GOMAXPROCS in 1,3,7: " + ("data differs" if any(p["kind"] == "env" for p in problems) else "identical data")
+                steps["envprobe"] = "GOMAXPROCS 1 / 3+encode-first / 7+decode-first / 5+xyz-first: " + ("data differs" if any(p["kind"] == "env" for p in problems) else "identical data")
         targets = list(P.get("targets", [])) + ["driver"]
         tb0 = time.time()
         ok, out, failed, errors = lake_build(targets)
@@ -553,7 +561,7 @@ def run_check(pid, tier, seed):
 
     # ---- 4b: property-specific extra exploration (search only, never the claim) -------------------
     if P.get("extra") == "racerun" and steps.get("build_harness"):
-        fnd, rinfo = racerun(tier, wdir)
+        fnd, rinfo = racerun(tier, wdir, pid)
         steps["racerun"] = rinfo
         extra_direct = fnd
     extra_direct = list(extra_direct) + extra_direct_env
